@@ -250,6 +250,19 @@ def check(item, tier):
                             dict(ctx, backups=iters, change_of_next_backup=float(np.abs(new_v - old_v).max())))
                 except Exception as e:
                     bad('pbvi_exception', dict(ctx, error=repr(e)[:300]))
+            # outer loop: a run that made fewer rounds than max_belief_expansions stopped because the last two value functions
+            # differ by less than epsilon on the whole (expanded) belief set -- in particular on every point the last round used
+            if 2 <= len(calls) < minexp + 4:
+                last_v = np.max(np.einsum('bs,ds->db', calls[-2][2], used), axis=-1)
+                curr_v = np.max(np.einsum('bs,ds->db', alphas, used), axis=-1)
+                r.count('transitions')
+                r.count('outer_stop_rule_checks')
+                if np.abs(last_v - curr_v).max() >= eps + 1e-12:
+                    bad('pbvi_outer_loop_stopped_before_reaching_its_convergence_threshold',
+                        dict(ctx, rounds=len(calls), change_between_last_two_rounds=float(np.abs(last_v - curr_v).max()),
+                             belief_points=len(used)))
+            elif len(calls) == 1 and minexp + 4 > 1:
+                bad('pbvi_outer_loop_stopped_after_one_round', dict(ctx, rounds=1))
             if len(used) >= 2 and any(len({ps.sa_reward(s, a) for a in ps.anames}) > 1 for s in range(n) if s not in A):
                 r.nontriv((pitem, hi, ei, mi))
             for k, b in beliefs.items():
